@@ -6,21 +6,31 @@ Encoded (real bytecode): ``classify_auth_failure``, ``_combine_reasons``, the ``
 ``_make_error_serializer`` (+ ``_render_unauthorized_json/html``, ``_wants_html``),
 ``_AuthMiddleware.process_request`` (exception ladder) and the client's ``_parse_unauthorized``.
 
-(a) classify / combine / chain: every exception kind an authenticator may raise maps into the closed set;
-    a chain of 1..3 alternatives reports ``missing_credential`` iff every alternative did, otherwise the first
-    other code; PermissionError / ProofError / AuthUnavailableError propagate unchanged; accept short-circuits.
-(b) declarations: the proxy-header dependency of any composition (chain, require_all, nested) is the ordered
-    union of its members'; ``build_proxy_hint`` is empty iff no header, names every header once.
+Every assertion is a statement of the property / of a MUST of the specification about an *outcome* (status, headers,
+envelope fields, the code classify_auth_failure gives the exception that leaves a chain); message wording, exception
+identity / chaining, call order, private attributes, extra envelope fields and the HTML page are not asserted.
+
+(a) classify / combine / chain: every exception kind an authenticator may raise maps into the closed set (declared
+    code => that code, proof failure => proxy_required, undeclared ValueError => unauthorized, undeclared
+    PermissionError => insufficient_scope or unauthorized); a chain of 1..3 alternatives is a rejection reporting
+    ``missing_credential`` iff every alternative did, otherwise the first other code; a PermissionError / ProofError
+    leaves the chain as that rejection, an AuthUnavailableError as an outage; the first accepting alternative decides.
+(b) declarations: the proxy-header dependency of any composition (chain, require_all, nested) is the union (as a
+    set) of its members'; ``build_proxy_hint`` is empty iff no header and names every header.
 (c) middleware + serializer: for every exception kind x Accept string x proxy configuration x detail:
-    AuthUnavailableError => 503 with Retry-After, never 401; a bug (KeyError) propagates; every rejection =>
-    401 whose ``VGI-Auth-Reason`` is in the closed set and equals the JSON ``reason``; ``Cache-Control: no-store``;
-    ``VGI-Auth-Proxy-Required``/``proxy_hint`` present iff configured, identical across two different failures of
-    the same service (also through the serializer's cache); HTML only when Accept contains text/html.
+    AuthUnavailableError => 503, never 401 nor the 401 headers; every rejection => 401 whose ``VGI-Auth-Reason`` is
+    that rejection's closed-set code and equals the JSON ``reason``; ``Cache-Control`` contains ``no-store``;
+    ``VGI-Auth-Proxy-Required``/``proxy_hint`` present iff the configuration depends on proxy-injected headers,
+    identical across different failures of the same service (also through the serializer's cache); HTML only when
+    Accept contains text/html (JSON is always admissible, §4.2); the envelope has error/reason/detail (extra fields
+    allowed); a body is what its Content-Type says.
 (c') history: request A then request B on the same app (kind, detail and — independently per request — the
-    representation asked for are symbolic): B's 401 satisfies the specification on its own and is byte-identical to
-    what a fresh app answers to B (the serializer's per-app body caches must never leak one request into another).
-(d) client: ``_parse_unauthorized`` on an arbitrary body (JSON value stub / undecodable bytes) always returns an
-    ``AuthenticationError`` with a closed-set reason; the server's own envelope round-trips reason/detail/hint.
+    representation asked for are symbolic): each 401 satisfies the specification for its own request (the
+    serializer's per-app body caches must never leak one request into another) and both carry the same note.
+(d) client: ``_parse_unauthorized`` on an arbitrary body (JSON value stub / non-JSON bytes, decodable or not / a body
+    nested beyond the recursion limit) always returns an ``AuthenticationError`` with a closed-set reason: the
+    envelope's code when it names one, else ``unauthorized``; a ``proxy_hint`` string is surfaced (§6); the
+    server's own envelope round-trips its code and note.
 """
 
 from __future__ import annotations
@@ -54,18 +64,24 @@ BOUNDS = (
     "AuthUnavailableError | exception with a bogus reason attribute | KeyError; chains of 1..3; Accept any str len<=%d; proxy "
     "configurations: 7 compositions of the real authenticators declaring 0, 1 or 2 headers; details from a table of 4 texts; "
     "histories of two requests per app with independent Accept per request; "
-    "client: JSON value of depth<=2 with symbolic strings len<=%d / small ints, or any undecodable body len<=%d"
+    "client: JSON value of depth<=2 with symbolic strings len<=%d / small ints, or any non-JSON body len<=%d (UTF-8 or not), "
+    "or a body json.loads gives up on with RecursionError"
     % (pick(10, 12), pick(3, 4), pick(2, 4))
 )
 OUTSIDE = (
     "Falcon's own routing of HTTPError to the serializer and of a raising middleware past the resource (C20); the inline derivation of "
     "proxy_hint inside make_wsgi_app (mirrored here as build_proxy_hint([*explicit, *proxy_headers_of(authenticate)]); exercised for "
-    "real in the replays); WWW-Authenticate; CORS expose lists; HTML page text (presentation, not contract); json module (C library)"
+    "real in the replays); WWW-Authenticate; CORS expose lists; HTML page text (presentation, not contract); json module (C library); the free-text "
+    "`detail` (server and client side) and the note's wording; which code an undeclared PermissionError gets (insufficient_scope or "
+    "unauthorized); what a crashing callback (KeyError) is answered with; the client's fallback from the body to the VGI-Auth-Reason "
+    "header (spec §6) — the reference client's parser is given the body only"
 )
 ASSUMPTIONS = [
     "falcon.Request/Response are fakes exposing only what the encoded functions touch (get_header, context, method, path, remote_addr, "
     "user_agent, cookies / set_header, content_type, data)",
-    "client: json.loads := returns a symbolic JSON value or raises ValueError (its documented contract); the closed-set container "
+    "client: json.loads := returns a symbolic JSON value, or raises json.JSONDecodeError / the real UnicodeDecodeError of decoding a "
+    "non-UTF-8 body (bodies that look like UTF-16/32 are taken as decodable) / RecursionError (CPython's behaviour on nesting beyond "
+    "the recursion limit); header-name lookups on the fake response are case-insensitive; the closed-set container "
     "_AUTH_REASONS is replaced by a linear-scan container holding the live values (a frozenset would hash, i.e. realise, a symbolic string)",
     "serializer detail texts are taken from a fixed table (the serializer's cache is a real dict keyed by the detail; a symbolic key would realise)",
 ]
@@ -118,7 +134,8 @@ def _mk_exc(k: int, detail: str = "") -> BaseException:
 
 
 def _expected_reason(k: int) -> AuthReason:
-    """docs/unauthorized-spec.md §2/§3 + classify_auth_failure's documented fallback."""
+    """docs/unauthorized-spec.md §2/§3: the code a rejection of kind k carries (for a bare PermissionError: the
+    reference's choice — see _reason_allowed for what the specification admits)."""
     if K_AF0 <= k <= 6:
         return _REASONS[k - 1]
     if k == K_PROOF:
@@ -126,6 +143,21 @@ def _expected_reason(k: int) -> AuthReason:
     if k == K_PERM:
         return AuthReason.INSUFFICIENT_SCOPE
     return AuthReason.UNAUTHORIZED
+
+
+def _reason_allowed(k: int, got) -> bool:  # type: ignore[no-untyped-def]
+    """Is `got` a code the specification admits for a rejection of kind k?
+
+    A declared code (AuthFailure) is that code; every proxy-proof outcome is proxy_required (§2); a failure naming no
+    code "uses unauthorized" (§2, conformance test_unclassified_failure_is_unauthorized).  For an undeclared
+    PermissionError the specification fixes nothing beyond the closed set: insufficient_scope (the reference's guess)
+    and the unclassified fallback both say what it says.
+    """
+    if k == K_PERM:
+        return got is AuthReason.INSUFFICIENT_SCOPE or got is AuthReason.UNAUTHORIZED
+    if k == K_BUG or k == K_UNAVAIL:
+        return got in _REASONS  # not rejections: no particular code is specified for them
+    return got is _expected_reason(k)
 
 
 def _is_value_family(k: int) -> bool:
@@ -170,36 +202,70 @@ def classify_always_in_closed_set(k: int, attr_kind: int, member: int, text: str
     post: _
     """
     exc: BaseException | None = None
-    want = AuthReason.UNAUTHORIZED
+    kind = 0
     for kk in range(1, _NK):
         if k == kk:
             exc = _mk_exc(kk)
-            want = _expected_reason(kk)
+            kind = kk
     if exc is None:
         return True
+    declared = None
     if attr_kind == 1:
-        # an explicit, valid declaration always wins (duck-typed: any exception class may carry it)
+        # an explicit, valid declaration (duck-typed: any exception class may carry it)
         for m in range(6):
             if member == m:
                 setattr(exc, un.REASON_ATTR, _REASONS[m])
-                want = _REASONS[m]
+                declared = _REASONS[m]
     elif attr_kind == 2:
-        setattr(exc, un.REASON_ATTR, text)  # a plain str — even one spelling a valid code — is not a declaration
-        want = AuthReason.INSUFFICIENT_SCOPE if isinstance(exc, PermissionError) else AuthReason.UNAUTHORIZED
+        setattr(exc, un.REASON_ATTR, text)  # junk where a code should be (no code has <= 3 characters)
     elif attr_kind == 3:
         setattr(exc, un.REASON_ATTR, number)
-        want = AuthReason.INSUFFICIENT_SCOPE if isinstance(exc, PermissionError) else AuthReason.UNAUTHORIZED
     elif attr_kind == 4:
         setattr(exc, un.REASON_ATTR, None)
-        want = AuthReason.INSUFFICIENT_SCOPE if isinstance(exc, PermissionError) else AuthReason.UNAUTHORIZED
     try:
         got = un.classify_auth_failure(exc)
     except Exception:  # noqa: BLE001
         return False
-    return isinstance(got, AuthReason) and got in _REASONS and got is want and got.value in _VALUES
+    # whatever comes in, a member of the closed set comes out
+    if not isinstance(got, AuthReason) or got not in _REASONS or got.value not in _VALUES:
+        return False
+    if kind == K_UNAVAIL or kind == K_BUG:
+        return True  # not rejections (503 / a bug): the specification gives them no code
+    if attr_kind == 1:
+        # §3: the code the authenticator declared (a proof failure re-labelled by hand may also stay proxy_required, §2)
+        return got is declared or (kind == K_PROOF and got is AuthReason.PROXY_REQUIRED)
+    if attr_kind == 0:
+        return _reason_allowed(kind, got)
+    return True  # a junk declaration: nothing beyond the closed set is specified
 
 
-@cond(q=30, t=120, encoded=[br._combine_reasons], bound="sequences of 0..%d codes from the closed set" % _NCOMB)
+def _replay_combine(args: dict) -> str | None:
+    """The same codes through the public route: a chain whose alternatives fail with exactly these codes."""
+    n = args["n"]
+    if n == 0:
+        return None
+    codes = [_REASONS[args["c%d" % i]] for i in range(n)]
+
+    def failing(code):  # type: ignore[no-untyped-def]
+        def member(req):  # type: ignore[no-untyped-def]
+            raise AuthFailure(code, "no")
+
+        return member
+
+    try:
+        br.chain_authenticate(*[failing(c) for c in codes])(object())
+        return f"a chain of alternatives failing with {[c.value for c in codes]} accepted the request"
+    except (ValueError, PermissionError) as e:
+        got = un.classify_auth_failure(e)
+    others = [c for c in codes if c is not AuthReason.MISSING_CREDENTIAL]
+    want = others[0] if others else AuthReason.MISSING_CREDENTIAL
+    if got is not want:
+        return f"a chain of alternatives failing with {[c.value for c in codes]} reports {got.value}; docs/unauthorized-spec.md §3.1 says {want.value}"
+    return None
+
+
+@cond(q=30, t=120, encoded=[br._combine_reasons], bound="sequences of 0..%d codes from the closed set" % _NCOMB,
+      replay=_replay_combine, signature=lambda args, conc: "C21:chain:combined-reason-violates-3.1")
 def combine_missing_iff_all_missing(n: int, c0: int, c1: int, c2: int, c3: int) -> bool:
     """
     pre: 0 <= n <= _NCOMB and 0 <= c0 <= 5 and 0 <= c1 <= 5 and 0 <= c2 <= 5 and 0 <= c3 <= 5
@@ -216,14 +282,16 @@ def combine_missing_iff_all_missing(n: int, c0: int, c1: int, c2: int, c3: int) 
     try:
         got = br._combine_reasons(codes)
     except Exception:  # noqa: BLE001
-        return False
+        return n == 0  # refusing an empty sequence is fine; one to four codes must combine
     # §3.1: missing_credential only when every alternative agreed; otherwise the first other code
     first_other = None
     for code in codes:
         if first_other is None and code is not AuthReason.MISSING_CREDENTIAL:
             first_other = code
+    if got not in _REASONS:
+        return False
     if n == 0:
-        return got is AuthReason.UNAUTHORIZED
+        return True  # no alternative at all: not reachable through chain_authenticate, nothing specified beyond the closed set
     if first_other is None:
         return got is AuthReason.MISSING_CREDENTIAL
     return got is first_other and got is not AuthReason.MISSING_CREDENTIAL
@@ -264,35 +332,67 @@ def _exc_at(i: int, k):  # type: ignore[no-untyped-def]
 
 
 def _chain_ok(n: int, kinds: tuple) -> bool:  # type: ignore[type-arg]
+    """Only what the specification says about a chain's *outcome* (who was called when, exception identity and
+    chaining are the implementation's business)."""
     want = _chain_expect(n, kinds)
     ctx, exc = _run_chain(n, kinds)
-    calls = _SLOT["calls"]
     if want[0] == "accept":
-        return exc is None and ctx is _CTX[want[1]] and calls == list(range(want[1] + 1))
+        return exc is None and ctx == _CTX[want[1]]  # OR semantics: the first alternative that accepts decides
     if want[0] == "raise":
-        # not a ValueError: an outage / a precondition / a bug is never read as "try the next credential"
-        return exc is _exc_at(want[1], kinds[want[1]]) and calls == list(range(want[1] + 1))
-    if not isinstance(exc, AuthFailure) or calls != list(range(n)):
+        # an outage / a precondition / a bug is never read as "try the next credential": what the service answers is
+        # what the middleware makes of the exception that leaves the chain
+        k = kinds[want[1]]
+        if exc is None:
+            return False
+        if k == K_UNAVAIL:
+            return isinstance(exc, un.AuthUnavailableError)  # => 503, never a 401
+        if k == K_BUG:
+            return True  # the specification says nothing about a crashing callback
+        if isinstance(exc, un.AuthUnavailableError) or not isinstance(exc, (ValueError, PermissionError)):
+            return False  # K_PERM / K_PROOF: a rejection (=> 401) ...
+        return _reason_allowed(k, un.classify_auth_failure(exc))  # ... with that failure's code, not a combined one
+    # every alternative failed with a ValueError: a rejection (=> 401) carrying the §3.1 combination
+    if exc is None or isinstance(exc, un.AuthUnavailableError) or not isinstance(exc, (ValueError, PermissionError)):
         return False
-    if exc.reason is not want[1] or un.classify_auth_failure(exc) is not want[1]:
+    got = un.classify_auth_failure(exc)
+    if got is not want[1]:
         return False
     all_missing = True
     for i in range(n):
         if kinds[i] != K_AF0:
             all_missing = False
-    if (exc.reason is AuthReason.MISSING_CREDENTIAL) != all_missing:
-        return False
-    return exc.__cause__ is _exc_at(n - 1, kinds[n - 1])
+    return (got is AuthReason.MISSING_CREDENTIAL) == all_missing
 
 
 def _replay_chain(args: dict) -> str | None:
-    kinds = (args["k0"], args["k1"], args["k2"])
-    if _chain_ok(args["n"], kinds):
-        return None
-    ctx, exc = _run_chain(args["n"], kinds)
+    """The chain as the `authenticate` of a real app (make_wsgi_app + Falcon): what does the service answer?"""
+    n, kinds = args["n"], (args["k0"], args["k1"], args["k2"])
+    want = _chain_expect(n, kinds)
     names = ["accept"] + ["AuthFailure(%s)" % v for v in _VALUES] + ["ValueError", "PermissionError", "ProofError", "AuthUnavailableError", "BogusReason", "KeyError"]
-    return (f"chain_authenticate over {[names[k] for k in kinds[:args['n']]]} -> {ctx!r} / {exc!r} (reason={getattr(exc, 'reason', None)!r}); "
-            f"expected {_chain_expect(args['n'], kinds)!r}")
+    _SLOT["kinds"] = list(kinds)
+    _SLOT["calls"] = []
+    svc = _RealService(0, authenticate=_CHAINS[n])
+    try:
+        r = svc.post(K_ACCEPT, _DETAILS[0], None)
+    finally:
+        svc.close()
+    h = {k.lower(): v for k, v in r.headers.items()}
+    code = h.get(AUTH_REASON_HEADER.lower())
+    where = f"service whose authenticate is chain_authenticate over {[names[k] for k in kinds[:n]]}: HTTP {r.status_code}, {AUTH_REASON_HEADER}={code!r}"
+    if want[0] == "accept":
+        return None if r.status_code not in (401, 503) else where + "; an alternative accepted the request"
+    if want[0] == "raise":
+        k = kinds[want[1]]
+        if k == K_BUG:
+            return None
+        if k == K_UNAVAIL:
+            return None if r.status_code == 503 else where + "; an authenticator outage must be a 503"
+        ok = r.status_code == 401 and any(code == c.value for c in _REASONS if _reason_allowed(k, c))
+        return None if ok else where + f"; expected the 401 of {names[k]} itself"
+    all_missing = all(kinds[i] == K_AF0 for i in range(n))
+    if r.status_code != 401 or code != want[1].value or (code == AuthReason.MISSING_CREDENTIAL.value) != all_missing:
+        return where + f"; docs/unauthorized-spec.md §3.1 says 401 with {want[1].value}"
+    return None
 
 
 @cond(q=60, t=300, encoded=[br.chain_authenticate, br._combine_reasons], bound="chains of 1..3 alternatives x %d outcome kinds each" % _NKC,
@@ -341,15 +441,16 @@ def _union(*seqs: tuple) -> tuple:  # type: ignore[type-arg]
 
 
 def _hint_ok(names: tuple, hint: str) -> bool:  # type: ignore[type-arg]
+    """§5 / §5.2: no note without a proxy dependency; otherwise a non-empty text naming every header the proxy must set
+    (the wording itself "is not normative — it is prose for a human")."""
     if not names:
         return hint == ""
-    if hint == "" or "reverse proxy" not in hint:
+    if not isinstance(hint, str) or hint == "":
         return False
     for h in names:
-        if hint.count(h) != 1:
+        if h not in hint:
             return False
-    # §5.2: names the headers; singular/plural agree with the count
-    return ("headers" in hint) == (len(names) > 1) and hint.index(names[0]) <= hint.index(names[-1])
+    return True
 
 
 @cond(q=40, t=200, encoded=[un.declare_proxy_headers, un.proxy_headers_of, un.merge_proxy_headers, un.build_proxy_hint, br.chain_authenticate, br.require_all],
@@ -392,9 +493,11 @@ def declarations_survive_composition(shape: int, a: int, b: int, c: int, explici
         again = un.build_proxy_hint([*he, *un.proxy_headers_of(top)])
     except Exception:  # noqa: BLE001
         return False
-    if got != want:
+    # §5.1: composition helpers carry every member's declaration through, and invent none (order / repeats are free)
+    if sorted(set(got)) != sorted(set(want)):
         return False
-    return _hint_ok(_union(he, want), hint) and hint == again and un.proxy_headers_of(None) == () and un.build_proxy_hint(()) == ""
+    # the note is a function of the configuration (asked twice: same text), absent without a dependency
+    return _hint_ok(_union(he, want), hint) and hint == again and len(un.proxy_headers_of(None)) == 0 and un.build_proxy_hint(()) == ""
 
 
 # the real authenticators' own declarations (7 service configurations used below)
@@ -431,7 +534,7 @@ def builtin_authenticators_declare_their_headers(cfg: int) -> bool:
             name, auth, explicit, want = _CONFIGS[i]
             names = _union(tuple(explicit), un.proxy_headers_of(auth))
             # §5.1: a proof gate contributes only in require mode; wrapping never drops a declaration
-            return names == want and _hint_ok(want, _config_hint(i))
+            return sorted(set(names)) == sorted(set(want)) and _hint_ok(want, _config_hint(i))
     return False
 
 
@@ -461,6 +564,11 @@ class _FReq:
             return self._accept if self._ap else default
         return default
 
+    def __getattr__(self, item: str):  # type: ignore[no-untyped-def]
+        if item.startswith("__"):
+            raise AttributeError(item)
+        raise HarnessModelError(f"falcon.Request.{item} is not modelled")
+
 
 class _FResp:
     def __init__(self) -> None:
@@ -469,7 +577,12 @@ class _FResp:
         self.data = None
 
     def set_header(self, name: str, value: str) -> None:
-        self.headers[name] = value
+        self.headers[name.lower()] = value  # header names are case-insensitive: kept lower-cased
+
+    def __getattr__(self, item: str):  # type: ignore[no-untyped-def]
+        if item.startswith("__"):
+            raise AttributeError(item)
+        raise HarnessModelError(f"falcon.Response.{item} is not modelled")
 
 
 def _pick_kind_exc(k: int, d: int):  # type: ignore[no-untyped-def]
@@ -502,58 +615,103 @@ def _ladder(kk: int, exc, req, resp):  # type: ignore[no-untyped-def]
     return None, None
 
 
-def _check_401(resp, reason: AuthReason, description: str, hint: str, html: bool) -> bool:  # type: ignore[no-untyped-def]
-    h = resp.headers
-    if h.get(AUTH_REASON_HEADER) != reason.value or h.get(AUTH_REASON_HEADER) not in _VALUES:
-        return False
-    if h.get("Cache-Control") != "no-store":
-        return False
-    if hint:
-        if h.get(AUTH_PROXY_REQUIRED_HEADER) != "true":
-            return False
-    elif AUTH_PROXY_REQUIRED_HEADER in h:
-        return False
-    if html:
-        return isinstance(resp.data, bytes) and str(resp.content_type).startswith("text/html") and resp.data.startswith(b"<!DOCTYPE html>")
-    if resp.content_type != falcon.MEDIA_JSON or not isinstance(resp.data, bytes):
-        return False
-    payload = _json.loads(resp.data)
-    want = {"error": "unauthorized", "reason": reason.value, "detail": description}
-    if hint:
-        want["proxy_hint"] = hint  # absent — not empty — when it does not apply
-    return payload == want and payload["reason"] == h[AUTH_REASON_HEADER]
+_H_REASON, _H_PROXY = AUTH_REASON_HEADER.lower(), AUTH_PROXY_REQUIRED_HEADER.lower()
 
 
-def _rejection_ok(kk: int, exc, hint: str, accept_present: bool, accept: str, ser) -> bool:  # type: ignore[no-untyped-def]
+def _spec_401_problem(headers: dict, content_type: str, body, kk: int, proxied: bool, accept) -> str | None:  # type: ignore[no-untyped-def]
+    """docs/unauthorized-spec.md §4 on one 401 (headers: lower-cased names).  Used on the fake response of the solver
+    items and on the real HTTP response of the replays — it reads the *response*, never the code's own decisions.
+
+    kk: the kind of rejection (=> the admissible codes); proxied: does the service's configuration depend on
+    proxy-injected headers; accept: the request's Accept value or None.
+    """
+    code = headers.get(_H_REASON)
+    reason = None
+    for r in _REASONS:
+        if code == r.value:
+            reason = r
+    if reason is None:
+        return "VGI-Auth-Reason missing or outside the closed set"
+    if not _reason_allowed(kk, reason):
+        return "VGI-Auth-Reason is not this rejection's code"
+    if "no-store" not in str(headers.get("cache-control", "")).lower():
+        return "no Cache-Control: no-store"
+    if proxied:
+        if headers.get(_H_PROXY) != "true":
+            return "VGI-Auth-Proxy-Required missing on a service that depends on proxy-injected headers"
+    elif _H_PROXY in headers:
+        return "VGI-Auth-Proxy-Required on a service with no proxy dependency"
+    if not isinstance(body, bytes):
+        return "no body"
+    ct = str(content_type or "")
+    if ct[:9].lower() == "text/html":
+        # §4.2: an HTML page only for a request whose Accept contains text/html (media types are case-insensitive, so
+        # either reading of 'contains' is admitted); the page itself is presentation
+        if not (accept is not None and ("text/html" in accept or "text/html" in accept.lower())):
+            return "HTML answer to a request that did not ask for text/html"
+        if body.lstrip()[:1] == b"{":
+            return "body labelled text/html is not a page (it starts like the JSON envelope)"
+        return None
+    # a service MAY always answer with JSON
+    if ct[:16].lower() != "application/json":
+        return "Content-Type is neither application/json nor text/html"
+    try:
+        payload = _json.loads(body)
+    except ValueError:
+        return "application/json body is not JSON"
+    if not isinstance(payload, dict):
+        return "envelope is not an object"
+    # §4.3: required fields (unknown extra fields are allowed), reason equal to the header
+    if payload.get("error") != "unauthorized" or payload.get("reason") != code or not isinstance(payload.get("detail"), str):
+        return "envelope lacks error/reason/detail or its reason differs from the header"
+    if proxied:
+        if not isinstance(payload.get("proxy_hint"), str) or payload.get("proxy_hint") == "":
+            return "proxy_hint missing on a service that depends on proxy-injected headers"
+    elif "proxy_hint" in payload:
+        return "proxy_hint present (absent, not empty, when it does not apply)"
+    return None
+
+
+def _check_401(resp, kk: int, proxied: bool, accept_present: bool, accept: str) -> bool:  # type: ignore[no-untyped-def]
+    return _spec_401_problem(resp.headers, resp.content_type, resp.data, kk, proxied, accept if accept_present else None) is None
+
+
+def _proxied(cfg_i: int) -> bool:
+    """Does configuration cfg_i depend on proxy-injected headers — by its description in _CONFIGS, not by the code's answer."""
+    return bool(_CONFIGS[cfg_i][3])
+
+
+def _rejection_ok(kk: int, exc, proxied: bool, accept_present: bool, accept: str, ser) -> bool:  # type: ignore[no-untyped-def]
+    hint = proxied
     req, resp = _FReq(accept_present, accept), _FResp()
     http, escaped = _ladder(kk, exc, req, resp)
     if kk == K_ACCEPT:
-        return http is None and escaped is None and not hasattr(req.context, "vgi_auth_reason")
+        return http is None and escaped is None  # an accepted request is not answered by the auth layer
     if kk == K_BUG:
-        return escaped is exc and http is None  # a bug surfaces (500), it is not dressed up as a 401
+        # a crashing callback is not an authentication rejection: the specification says nothing about it, except that
+        # *if* it is answered with a 401, that 401 is one (any closed-set code)
+        if http is None or not isinstance(http, falcon.HTTPUnauthorized):
+            return True
+        ser(req, resp, http)
+        return _check_401(resp, K_BUG, hint, accept_present, accept)
     if escaped is not None or http is None:
         return False
     if kk == K_UNAVAIL:
-        # an outage is 503 + Retry-After, never a 401 and never the 401 headers
-        if isinstance(http, falcon.HTTPUnauthorized) or not isinstance(http, falcon.HTTPServiceUnavailable) or not str(http.status).startswith("503"):
-            return False
-        if (http.headers or {}).get("Retry-After") != "7":
+        # an outage is a 503, never a 401 and never the 401 headers
+        if isinstance(http, falcon.HTTPUnauthorized) or not str(http.status).startswith("503"):
             return False
         ser(req, resp, http)
-        return AUTH_REASON_HEADER not in resp.headers and AUTH_PROXY_REQUIRED_HEADER not in resp.headers
+        return _H_REASON not in resp.headers and _H_PROXY not in resp.headers
     if not isinstance(http, falcon.HTTPUnauthorized) or not str(http.status).startswith("401"):
         return False
-    reason = _expected_reason(kk)
-    if getattr(req.context, "vgi_auth_reason", None) is not reason or http.description != str(exc):
-        return False
     ser(req, resp, http)
-    return _check_401(resp, reason, str(exc), hint, accept_present and "text/html" in accept)
+    return _check_401(resp, kk, hint, accept_present, accept)
 
 
 class _RealService:
     """One make_wsgi_app instance (one serializer, one cache) whose callback fails the way the request asks."""
 
-    def __init__(self, cfg: int) -> None:
+    def __init__(self, cfg: int, authenticate=None) -> None:  # type: ignore[no-untyped-def]
         from typing import Protocol
 
         from vgi_rpc.http._testing import make_sync_client
@@ -568,13 +726,15 @@ class _RealService:
 
         name, cfg_auth, explicit, _want = _CONFIGS[cfg]
 
-        def authenticate(req):  # type: ignore[no-untyped-def]
+        def by_request(req):  # type: ignore[no-untyped-def]
             kk = int(req.get_header("X-Harness-Kind") or "0")
             if kk == K_ACCEPT:
                 return _CTX[0]
             raise _mk_exc(kk, _DETAILS[int(req.get_header("X-Harness-Detail") or "0")])
 
-        un.declare_proxy_headers(authenticate, *un.proxy_headers_of(cfg_auth))
+        if authenticate is None:
+            authenticate = by_request
+            un.declare_proxy_headers(authenticate, *un.proxy_headers_of(cfg_auth))
         self.client = make_sync_client(RpcServer(Svc, Impl()), token_key=b"k" * 32, authenticate=authenticate, proxy_auth_headers=list(explicit) or None)
 
     def post(self, kk: int, detail: str, accept: str | None):  # type: ignore[no-untyped-def]
@@ -603,26 +763,17 @@ def _real_401_problem(kk: int, detail: str, cfg: int, accept: str | None, servic
     except UnicodeError:
         return None  # an Accept value no HTTP server can deliver
     r = _real_401(kk, detail, cfg, accept_wire, service)
-    hint = _config_hint(cfg)
+    hint = _proxied(cfg)
     h = {k.lower(): v for k, v in r.headers.items()}
     where = f"{_CONFIGS[cfg][0]}, callback raising {type(_mk_exc(kk, detail)).__name__}({detail!r}), Accept={accept!r}: HTTP {r.status_code} headers={ {k: h[k] for k in h if k.startswith('vgi-auth') or k in ('cache-control', 'retry-after', 'content-type')} } body={r.content[:160]!r}"
     if kk == K_UNAVAIL:
-        return None if (r.status_code == 503 and h.get("retry-after") == "7" and AUTH_REASON_HEADER.lower() not in h) else where
-    if kk == K_BUG:
-        return None if r.status_code == 500 else where
-    reason = _expected_reason(kk)
-    ok = r.status_code == 401 and h.get(AUTH_REASON_HEADER.lower()) == reason.value and h.get("cache-control") == "no-store" \
-        and (h.get(AUTH_PROXY_REQUIRED_HEADER.lower()) == "true") == bool(hint) and (bool(hint) or AUTH_PROXY_REQUIRED_HEADER.lower() not in h)
-    if ok and not (accept is not None and "text/html" in accept):
-        try:
-            p = _json.loads(r.content)
-            want = {"error": "unauthorized", "reason": reason.value, "detail": str(_mk_exc(kk, detail))}
-            if hint:
-                want["proxy_hint"] = hint
-            ok = p == want and h.get("content-type", "").startswith("application/json")
-        except ValueError:
-            ok = False
-    return None if ok else where
+        return None if (r.status_code == 503 and _H_REASON not in h and _H_PROXY not in h) else where + " — an outage must be a 503 without the 401 headers"
+    if kk == K_BUG and r.status_code != 401:
+        return None
+    if r.status_code != 401:
+        return where + " — a rejection must be a 401"
+    problem = _spec_401_problem(h, h.get("content-type", ""), r.content, kk, bool(hint), accept_wire)
+    return None if problem is None else where + " — " + problem
 
 
 def _replay_rejection(args: dict) -> str | None:
@@ -630,21 +781,22 @@ def _replay_rejection(args: dict) -> str | None:
     return _real_401_problem(args["k"], detail, _CFG4[args["cfg"]], args["accept"] if args["accept_present"] else None)
 
 
-@cond(q=60, t=400, encoded=[mw._AuthMiddleware.process_request, er._make_error_serializer, er._render_unauthorized_json, er._wants_html, un.classify_auth_failure],
+@cond(q=120, t=400, encoded=[mw._AuthMiddleware.process_request, er._make_error_serializer, er._render_unauthorized_json, er._wants_html, un.classify_auth_failure],
       bound="13 callback outcomes x %d service configurations (none / two declared headers [/ one / operator-stated list]) x Accept absent|any str len<=%d x %d detail texts" % (_NC1, _LA, _ND),
-      replay=_replay_rejection, signature=lambda args, conc: "C21:401-shape:header-body-mismatch-or-wrong-status")
+      replay=_replay_rejection,
+      signature=lambda args, conc: "C21:outage:not-a-503-or-carries-401-headers" if args["k"] == K_UNAVAIL else "C21:401-shape:header-body-mismatch-or-wrong-status")
 def rejection_is_spec_401(k: int, cfg: int, accept_present: bool, accept: str, d: int) -> bool:
     """
     pre: 0 <= k < _NK and 0 <= cfg < _NC1 and len(accept) <= _LA and 0 <= d < _ND
     post: _
     """
     kk, exc = _pick_kind_exc(k, d)
-    hint = ""
+    hint, proxied = "", False
     for i in range(_NC1):
         if cfg == i:
-            hint = _config_hint(_CFG4[i])
+            hint, proxied = _config_hint(_CFG4[i]), _proxied(_CFG4[i])
     ser = er._make_error_serializer(hint)
-    return _rejection_ok(kk, exc, hint, accept_present, accept, ser)
+    return _rejection_ok(kk, exc, proxied, accept_present, accept, ser)
 
 
 _REJ = [1, 2, 3, 4, 5, 6, K_VALUE, K_PERM, K_PROOF, K_BOGUS]  # the outcomes that are rejections (401)
@@ -663,9 +815,9 @@ def _pick_rej(i: int) -> int:
 def _note_of(resp) -> tuple:  # type: ignore[no-untyped-def,type-arg]
     """(header value | None, body hint | None) of a serialized 401."""
     body_hint = None
-    if resp.content_type == falcon.MEDIA_JSON:
+    if str(resp.content_type or "")[:16].lower() == "application/json":
         body_hint = _json.loads(resp.data).get("proxy_hint")
-    return resp.headers.get(AUTH_PROXY_REQUIRED_HEADER), body_hint
+    return resp.headers.get(_H_PROXY), body_hint
 
 
 def _uniform_ok(cfg_i: int, k1: int, k2: int, html: bool, same_detail: bool) -> bool:
@@ -682,21 +834,26 @@ def _uniform_ok(cfg_i: int, k1: int, k2: int, html: bool, same_detail: bool) -> 
     h2, x2 = _ladder(k2, e2, r2q, r2)
     if h1 is None or h2 is None or x1 is not None or x2 is not None:
         return False
-    r3q.context.vgi_auth_reason = getattr(r1q.context, "vgi_auth_reason", None)
+    h3, x3 = _ladder(k1, e1, r3q, r3)  # the first failure once more (its own pass through the middleware)
+    if h3 is None or x3 is not None:
+        return False
     ser(r1q, r1, h1)
     ser(r2q, r2, h2)
-    ser(r3q, r3, h1)  # the first failure again: served from the cache, must be byte-identical
-    if not _check_401(r1, _expected_reason(k1), str(e1), hint, html):
+    ser(r3q, r3, h3)  # possibly served from the serializer's cache: still this failure's 401
+    proxied = _proxied(cfg_i)
+    if not _check_401(r1, k1, proxied, True, accept):
         return False
-    if not _check_401(r2, _expected_reason(k2), str(e2), hint, False):
+    if not _check_401(r2, k2, proxied, True, "application/json"):
         return False
-    if r3.data != r1.data or r3.headers != r1.headers or r3.content_type != r1.content_type:
+    if not _check_401(r3, k1, proxied, True, accept):
         return False
-    # the note is a property of the service, not of the failure
-    n1, n2 = _note_of(r1), _note_of(r2)
-    if n1[0] != n2[0] or (not html and n1[1] != n2[1]):
+    # the note is a property of the service, not of the failure: identical on every 401
+    n1, n2, n3 = _note_of(r1), _note_of(r2), _note_of(r3)
+    if n1[0] != n2[0] or n3[0] != n1[0] or n3[1] != n1[1]:
         return False
-    return (n2[0] == "true") == bool(hint) and n2[1] == (hint or None)
+    if n1[1] is not None and n1[1] != n2[1]:
+        return False  # (an HTML page carries no body note to compare)
+    return (n2[0] == "true") == proxied and (n2[1] is not None) == proxied
 
 
 def _replay_uniform(args: dict) -> str | None:
@@ -744,23 +901,39 @@ def proxy_note_uniform_across_failures(proxied: bool, i1: int, i2: int, mode: in
 
 _LJ = pick(3, 4)
 _LB = pick(2, 4)
-_J: dict = {"value": None, "raise": False, "calls": 0}
+_J: dict = {"value": None, "fail": 0, "calls": 0}
 _PAYLOAD: dict = {}
 _LISTV = ["missing_credential"]  # non-scalar values an intermediary might put there (concrete: str() of a container of symbolic values is not modelled)
 _DICTV = {"code": "missing_credential"}
 
 
+_FAIL_NONE, _FAIL_NOT_JSON, _FAIL_DEPTH = 0, 1, 2
+
+
 class _JsonStub:
-    """json.loads contract: returns some JSON value, or raises ValueError (JSONDecodeError is one)."""
+    """json.loads contract (CPython): returns some JSON value; or, for input that is not a JSON document, raises
+    json.JSONDecodeError — after decoding bytes input, which raises UnicodeDecodeError for bytes that are not text in
+    the detected encoding (both are ValueErrors); or, for a document nested deeper than the interpreter's recursion
+    limit, raises RecursionError.  Which of these happens is the item's choice (_J['fail']); the exception classes the
+    real module exports are exported here too."""
+
+    JSONDecodeError = _json.JSONDecodeError
 
     @staticmethod
     def loads(data, *a, **kw):  # type: ignore[no-untyped-def]
         _J["calls"] += 1
-        if _J["raise"]:
-            raise ValueError("Expecting value: line 1 column 1 (char 0)")
+        fail = _J["fail"]
+        if fail == _FAIL_DEPTH:
+            raise RecursionError("maximum recursion depth exceeded while decoding a JSON array from a unicode string")
+        if fail == _FAIL_NOT_JSON:
+            if isinstance(data, (bytes, bytearray)) and _json.detect_encoding(data) == "utf-8":
+                data.decode("utf-8")  # the real UnicodeDecodeError for an undecodable body (UTF-16/32-looking bodies: taken as decodable)
+            raise _json.JSONDecodeError("Expecting value", "", 0)
         return _J["value"]
 
     def __getattr__(self, item: str):  # type: ignore[no-untyped-def]
+        if item.startswith("__"):
+            raise AttributeError(item)
         raise HarnessModelError(f"json.{item} is not modelled")
 
 
@@ -783,17 +956,28 @@ class _ScanSet:
 _parse_stubbed = reglobalize(cl._parse_unauthorized, json=_JsonStub(), _AUTH_REASONS=_ScanSet(cl._AUTH_REASONS))
 
 
-def _client_result_ok(err, want_reason, want_detail, want_hint) -> bool:  # type: ignore[no-untyped-def]
+def _parse(fn, body):  # type: ignore[no-untyped-def]
+    """fn(body) for the client's 401 parser (stubbed or real).  The harness knows the one-argument form only."""
+    import inspect
+
+    try:
+        inspect.signature(cl._parse_unauthorized).bind(body)
+    except TypeError:
+        raise HarnessModelError("_parse_unauthorized no longer takes just the body") from None
+    return fn(body)
+
+
+def _client_result_ok(err, want_reason, want_hint) -> bool:  # type: ignore[no-untyped-def]
+    """An authentication error with a closed-set reason (the property); optionally: that reason, and — §6 — the note
+    surfaced to whoever sees the error (on the attribute or in the message).  The detail text is free."""
     if not isinstance(err, un.AuthenticationError) or not isinstance(err.reason, AuthReason) or err.reason not in _REASONS:
-        return False
-    if err.error_type != "AuthenticationError" or not isinstance(err.detail, str) or not isinstance(err.proxy_hint, str):
         return False
     if want_reason is not None and err.reason is not want_reason:
         return False
-    if want_detail is not None and err.detail != want_detail:
-        return False
-    if want_hint is not None and err.proxy_hint != want_hint:
-        return False
+    if want_hint is not None and want_hint != "":
+        if err.proxy_hint == want_hint:
+            return True  # (the cheap case first: one equality instead of a substring search over a symbolic string)
+        return want_hint in str(err.proxy_hint) or want_hint in str(err)
     return True
 
 
@@ -818,12 +1002,21 @@ def _replay_client_envelope(args: dict) -> str | None:
         payload["trace_id"] = "abc"
     body = _json.dumps(payload).encode()
     want = _reason_of_text(payload["reason"]) if isinstance(payload.get("reason"), str) else AuthReason.UNAUTHORIZED
+    hint = payload.get("proxy_hint") if isinstance(payload.get("proxy_hint"), str) else None
+    return _real_client_problem(body, want, hint)
+
+
+def _real_client_problem(body: bytes, want_reason, want_hint) -> str | None:  # type: ignore[no-untyped-def]
+    """The real client (real json, real closed set) on a concrete 401 body."""
     try:
-        err = cl._parse_unauthorized(body)
-    except Exception as e:  # noqa: BLE001
-        return f"_parse_unauthorized({body!r}) raised {type(e).__name__}: {e}"
-    if not _client_result_ok(err, want, None, None):
-        return f"_parse_unauthorized({body!r}) -> reason={getattr(err, 'reason', None)!r} detail={getattr(err, 'detail', None)!r}; expected reason {want!r}"
+        err = _parse(cl._parse_unauthorized, body)
+    except HarnessModelError:
+        raise
+    except BaseException as e:  # noqa: BLE001  (RecursionError and friends included: nothing but the typed error may come out)
+        return f"_parse_unauthorized({body[:60]!r}{'...' if len(body) > 60 else ''}, {len(body)} bytes) raised {type(e).__name__}: {str(e)[:120]}"
+    if not _client_result_ok(err, want_reason, want_hint):
+        return (f"_parse_unauthorized({body[:200]!r}) -> {type(err).__name__} reason={getattr(err, 'reason', None)!r} proxy_hint={getattr(err, 'proxy_hint', None)!r}; "
+                f"expected an AuthenticationError with reason {want_reason.value if want_reason is not None else 'in the closed set'}" + (f" surfacing the note {want_hint!r}" if want_hint else ""))
     return None
 
 
@@ -834,16 +1027,36 @@ def _replay_client_body(args: dict) -> str | None:
         return None  # this body is JSON after all: not the case the condition is about
     except ValueError:
         pass
-    try:
-        err = cl._parse_unauthorized(body)
-    except Exception as e:  # noqa: BLE001
-        return f"_parse_unauthorized({body!r}) raised {type(e).__name__}: {e}"
-    if not _client_result_ok(err, AuthReason.UNAUTHORIZED, None, "") or not (1 <= len(err.detail) <= cl._MAX_UNAUTHORIZED_DETAIL):
-        return f"_parse_unauthorized({body!r}) -> {err!r} reason={getattr(err, 'reason', None)!r} detail={getattr(err, 'detail', None)!r}"
+    return _real_client_problem(body, AuthReason.UNAUTHORIZED, None)
+
+
+def _json_text_of(args: dict) -> bytes:
+    v = [None, None, args["b"], args["n"], args["s"], [args["s"], args["n"]]][args["jk"]]
+    return _json.dumps(v).encode()
+
+
+def _replay_client_non_object(args: dict) -> str | None:
+    """The real client on the JSON text of the counterexample's scalar / list."""
+    return _real_client_problem(_json_text_of(args), AuthReason.UNAUTHORIZED, None)
+
+
+def _replay_client_deep(args: dict) -> str | None:
+    """A concrete body of the kind the condition abstracts: JSON nested deeper than the interpreter's recursion limit
+    (what a confused or hostile intermediary can send; 100 kB).  The real json module, the real client."""
+    import sys
+
+    deep = b"[" * (100 * sys.getrecursionlimit())
+    for body in (bytes(args["content"]) + deep, deep):  # the abstract body is *any* body json.loads gives up on this way
+        try:
+            _json.loads(body)
+        except RecursionError:
+            return _real_client_problem(body, None, None)
+        except ValueError:
+            continue
     return None
 
 
-@cond(q=60, t=300, stubs=["json.loads := symbolic JSON value | ValueError", "_AUTH_REASONS := linear-scan container of the live values"], encoded=[cl._parse_unauthorized],
+@cond(q=120, t=400, stubs=["json.loads := symbolic JSON value", "_AUTH_REASONS := linear-scan container of the live values"], encoded=[cl._parse_unauthorized],
       bound="JSON object with optional reason/detail/proxy_hint/unknown keys; reason value: any str len<=%d | each closed-set code | int | null | list | object; detail/hint: str len<=%d | int | null" % (_LJ, _LJ),
       replay=_replay_client_envelope, signature=lambda args, conc: "C21:client:reason-outside-closed-set-or-raises")
 def client_envelope_any_object(has_reason: bool, rk: int, rs: str, member: int, has_detail: bool, dk: int, ds: str, has_hint: bool, hk: int, hs: str, extra: bool, n: int) -> bool:
@@ -870,64 +1083,81 @@ def client_envelope_any_object(has_reason: bool, rk: int, rs: str, member: int, 
             payload["reason"] = _LISTV
         else:
             payload["reason"] = _DICTV
-    want_detail: str | None = ""
     if has_detail:
         if dk == 0:
             payload["detail"] = ds
-            want_detail = ds
         elif dk == 1:
             payload["detail"] = n
-            want_detail = None  # some rendering of the number
         else:
             payload["detail"] = None
-            want_detail = None
-    want_hint: str | None = ""
+    want_hint: str | None = None
     if has_hint:
         if hk == 0:
             payload["proxy_hint"] = hs
-            want_hint = hs
+            want_hint = hs  # §6: surfaced to whoever sees the error
         else:
             payload["proxy_hint"] = None if hk == 1 else _LISTV
-            want_hint = None
     if extra:
         payload["trace_id"] = "abc"  # readers MUST ignore unknown fields
-    _J.update(value=payload, calls=0)
-    _J["raise"] = False
+    _J.update(value=payload, calls=0, fail=_FAIL_NONE)
     try:
-        err = _parse_stubbed(b"{...}")
+        err = _parse(_parse_stubbed, b"{...}")
+    except HarnessModelError:
+        raise
     except Exception:  # noqa: BLE001
         return False  # degrade without raising
     if has_reason and rk == 0:
         want_reason = _reason_of_text(rs)
-    return _J["calls"] == 1 and _client_result_ok(err, want_reason, want_detail, want_hint)
+    if _J["calls"] == 0:
+        raise HarnessModelError("the client did not read the body through json.loads: the JSON stub does not model that")
+    return _client_result_ok(err, want_reason, want_hint)
 
 
-@cond(q=60, t=300, stubs=["json.loads := raises ValueError (body is not JSON)"], encoded=[cl._parse_unauthorized], bound="body = any bytes len<=%d that is not JSON" % _LB,
+@cond(q=150, t=400, stubs=["json.loads := for a body that is not JSON: the UnicodeDecodeError of decoding it when it is not UTF-8 text, else json.JSONDecodeError"], encoded=[cl._parse_unauthorized],
+      bound="body = any bytes len<=%d that is not JSON (valid UTF-8 or not)" % _LB,
       replay=_replay_client_body, signature=lambda args, conc: "C21:client:non-json-body-mishandled")
 def client_non_json_body(content: bytes) -> bool:
     """
     pre: len(content) <= _LB
     post: _
     """
-    _J.update(calls=0, value=None)
-    _J["raise"] = True
+    _J.update(calls=0, value=None, fail=_FAIL_NOT_JSON)
     try:
-        err = _parse_stubbed(content)
+        err = _parse(_parse_stubbed, content)
+    except HarnessModelError:
+        raise
     except Exception:  # noqa: BLE001
         return False
-    if not _client_result_ok(err, AuthReason.UNAUTHORIZED, None, ""):
-        return False
-    return len(err.detail) >= 1 and len(err.detail) <= cl._MAX_UNAUTHORIZED_DETAIL
+    # nothing can be read out of such a body: the fallback code (§6)
+    return _client_result_ok(err, AuthReason.UNAUTHORIZED, None)
 
 
-@cond(q=30, t=120, stubs=["json.loads := symbolic JSON scalar / list"], encoded=[cl._parse_unauthorized], bound="body parses to null | bool | int 0..99 | str len<=2 | list")
+@cond(q=120, t=300, stubs=["json.loads := raises RecursionError (document nested deeper than the recursion limit)"], encoded=[cl._parse_unauthorized],
+      bound="body = any bytes len<=%d standing for the head of a body whose JSON nesting exceeds the interpreter's recursion limit" % _LB,
+      replay=_replay_client_deep, signature=lambda args, conc: "C21:client:deeply-nested-json-body-escapes-as-RecursionError")
+def client_deeply_nested_body(content: bytes) -> bool:
+    """
+    pre: len(content) <= _LB
+    post: _
+    """
+    _J.update(calls=0, value=None, fail=_FAIL_DEPTH)
+    try:
+        err = _parse(_parse_stubbed, content)
+    except HarnessModelError:
+        raise
+    except Exception:  # noqa: BLE001
+        return False  # "any 401 body" becomes an authentication error — RecursionError is not one
+    return _client_result_ok(err, None, None)
+
+
+@cond(q=30, t=120, stubs=["json.loads := symbolic JSON scalar / list"], encoded=[cl._parse_unauthorized], bound="body parses to null | bool | int 0..99 | str len<=2 | list",
+      replay=_replay_client_non_object, signature=lambda args, conc: "C21:client:json-non-object-body-mishandled")
 def client_json_non_object_body(jk: int, b: bool, n: int, s: str) -> bool:
     """
     pre: 1 <= jk <= 5 and len(s) <= 2 and 0 <= n <= 99
     post: _
     """
-    _J.update(calls=0)
-    _J["raise"] = False
+    _J.update(calls=0, fail=_FAIL_NONE)
     _J["value"] = None
     if jk == 2:
         _J["value"] = b
@@ -938,14 +1168,17 @@ def client_json_non_object_body(jk: int, b: bool, n: int, s: str) -> bool:
     elif jk == 5:
         _J["value"] = [s, n]
     try:
-        err = _parse_stubbed(b"<json text>")
+        err = _parse(_parse_stubbed, b"<json text>")
+    except HarnessModelError:
+        raise
     except Exception:  # noqa: BLE001
         return False
-    return _client_result_ok(err, AuthReason.UNAUTHORIZED, None, "") and len(err.detail) >= 1
+    return _client_result_ok(err, AuthReason.UNAUTHORIZED, None)  # not the envelope: nothing to read a code from
 
 
-@cond(q=30, t=120, encoded=[er._render_unauthorized_json, er._render_unauthorized_html, cl._parse_unauthorized],
-      bound="6 reasons x 4 detail texts x 7 service configurations x JSON/HTML rendering (nothing stubbed)")
+@cond(q=90, t=240, encoded=[er._render_unauthorized_json, er._render_unauthorized_html, cl._parse_unauthorized],
+      bound="6 reasons x 4 detail texts x 7 service configurations x JSON/HTML rendering (nothing stubbed)",
+      replay=lambda a: _replay_round_trip(a), signature=lambda args, conc: "C21:client:server-envelope-does-not-round-trip")
 def server_envelope_round_trips_through_client(r: int, d: int, cfg: int, html: bool) -> bool:
     """
     pre: 0 <= r <= 5 and 0 <= d <= 3 and 0 <= cfg < _NCFG
@@ -961,18 +1194,37 @@ def server_envelope_round_trips_through_client(r: int, d: int, cfg: int, html: b
     for i in range(_NCFG):
         if cfg == i:
             hint = _config_hint(i)
+    import inspect
+
+    render = er._render_unauthorized_html if html else er._render_unauthorized_json
     try:
-        if html:
-            err = cl._parse_unauthorized(er._render_unauthorized_html(reason, detail, hint))
-            # nothing may be parsed out of the page: unclassified, one-line note instead of markup
-            return _client_result_ok(err, AuthReason.UNAUTHORIZED, None, "") and "<" not in err.detail
-        err = cl._parse_unauthorized(er._render_unauthorized_json(reason, detail, hint))
+        inspect.signature(render).bind(reason, detail, hint)
+    except TypeError:
+        raise HarnessModelError("the 401 renderers no longer take (reason, detail, proxy_hint)") from None
+    try:
+        err = _parse(cl._parse_unauthorized, render(reason, detail, hint))
+    except HarnessModelError:
+        raise
     except Exception:  # noqa: BLE001
         return False
-    if not _client_result_ok(err, reason, detail, hint):
-        return False
-    # the note is surfaced in the message, where a traceback reader sees it
-    return (hint in str(err)) if hint else True
+    if html:
+        # nothing may be parsed out of the page (§4.2): the fallback code
+        return _client_result_ok(err, AuthReason.UNAUTHORIZED, None)
+    # the server's own envelope: its code arrives, and the note is surfaced where a traceback reader sees it (§6)
+    return _client_result_ok(err, reason, hint or None)
+
+
+def _replay_round_trip(args: dict) -> str | None:
+    """A real app of that configuration rejects with AuthFailure(reason, detail); the real client parses the real 401 body."""
+    reason, detail, cfg = _REASONS[args["r"]], _DETAILS[args["d"]], args["cfg"]
+    r = _real_401(K_AF0 + args["r"], detail, cfg, "text/html" if args["html"] else "*/*")
+    if r.status_code != 401:
+        return f"{_CONFIGS[cfg][0]}: AuthFailure({reason.value}) answered with HTTP {r.status_code}"
+    is_html = r.headers.get("content-type", "").lower().startswith("text/html")
+    hint = None
+    if not is_html and _proxied(cfg):
+        hint = _json.loads(r.content).get("proxy_hint")
+    return _real_client_problem(r.content, AuthReason.UNAUTHORIZED if is_html else reason, hint if isinstance(hint, str) else None)
 
 
 # ---------------------------------------------------------------------------
@@ -989,7 +1241,6 @@ _NP = pick(1, 2)  # quick: a service with a proxy dependency (note present); tho
 def _history_ok(cfg_i: int, k1: int, k2: int, same_detail: bool, html_a: bool, html_b: bool) -> bool:
     hint = _config_hint(cfg_i)
     shared = er._make_error_serializer(hint)
-    fresh = er._make_error_serializer(hint)
     d1 = _DETAILS[1]
     d2 = _DETAILS[1] if same_detail else _DETAILS[2]
     e1, e2 = _mk_exc(k1, d1), _mk_exc(k2, d2)
@@ -997,22 +1248,22 @@ def _history_ok(cfg_i: int, k1: int, k2: int, same_detail: bool, html_a: bool, h
     acc_b = "text/html" if html_b else "application/json"
     qa, ra = _FReq(True, acc_a), _FResp()
     qb, rb = _FReq(True, acc_b), _FResp()
-    qf, rf = _FReq(True, acc_b), _FResp()
     ha, xa = _ladder(k1, e1, qa, ra)
     hb, xb = _ladder(k2, e2, qb, rb)
     if ha is None or hb is None or xa is not None or xb is not None:
         return False
-    qf.context.vgi_auth_reason = getattr(qb.context, "vgi_auth_reason", None)
     shared(qa, ra, ha)
     shared(qb, rb, hb)
-    fresh(qf, rf, hb)
-    if not _check_401(ra, _expected_reason(k1), str(e1), hint, html_a):
+    proxied = _proxied(cfg_i)
+    # whatever was answered before, each 401 is — on its own — the 401 the specification prescribes for *its* request
+    # (its code in header and envelope, its representation, a body that is what its Content-Type says)
+    if not _check_401(ra, k1, proxied, True, acc_a):
         return False
-    if not _check_401(rb, _expected_reason(k2), str(e2), hint, html_b):
+    if not _check_401(rb, k2, proxied, True, acc_b):
         return False
-    if html_b and _expected_reason(k2).value.encode() not in rb.data:
-        return False  # the page shows the same code as the header (§4.2 SHOULD; the reference does)
-    return rb.data == rf.data and rb.content_type == rf.content_type and rb.headers == rf.headers
+    # and the note is the service's, identical on both
+    na, nb = _note_of(ra), _note_of(rb)
+    return na[0] == nb[0] and (na[1] is None or nb[1] is None or na[1] == nb[1])
 
 
 def _replay_history(args: dict) -> str | None:
@@ -1026,16 +1277,13 @@ def _replay_history(args: dict) -> str | None:
         first = _real_401_problem(k1, _DETAILS[1], cfg, acc_a, svc)
         if first:
             return "first request: " + first
-        second = svc.post(k2, d2, acc_b)
+        second = _real_401_problem(k2, d2, cfg, acc_b, svc)
     finally:
         svc.close()
-    alone = _real_401(k2, d2, cfg, acc_b)
-    h2 = {k.lower(): v for k, v in second.headers.items()}
-    is_html = second.content.lstrip().lower().startswith(b"<!doctype html")
-    if second.content != alone.content or is_html != bool(args["html_b"]):
-        return (f"{_CONFIGS[cfg][0]}: after a 401 for Accept={acc_a!r} (reason {_expected_reason(k1).value}, detail {_DETAILS[1]!r}), the 401 for "
-                f"Accept={acc_b!r} (reason {_expected_reason(k2).value}, detail {d2!r}) is content-type {h2.get('content-type')!r} with body "
-                f"{second.content[:70]!r}...; a fresh app answers the same request with {alone.content[:70]!r}...")
+    if second:
+        alone = _real_401_problem(k2, d2, cfg, acc_b)
+        return (f"after a 401 for Accept={acc_a!r} (reason {_expected_reason(k1).value}, detail {_DETAILS[1]!r}) on the same app: {second}"
+                + ("" if alone else "; a fresh app answers this request correctly"))
     return None
 
 
